@@ -152,7 +152,7 @@ fn plan_c01(thorough: bool) -> Plan {
         cases,
         "histx: every history of D commits whose batches deviate from the empty batch in at most B key actions (bound = number of deviations), over colliding key universes, from seed states {empty, leaf(6x1300B), branch(600 keys sharing 30 bytes), bulk(1500 keys), ovf(5MiB value), ovf2(two 70000-byte and one 61381-byte value), mixed2(700 clustered + 60 scattered keys), pfx(450 keys sharing 247 bits + 3 far keys: a branch node built with stopped prefix compression; macro action 'delete a run of 100..400 cluster keys' + in-place rewrite of a far key, every seed key audited)}; action alphabet = read, delete, read-then-delete, write of sizes {0,1,1332,1333,5000,61380,61381,70000}, read-then-write; reopen inserted at every position for a sub-family; after every commit Nomt::read and Session::read of every universe key are compared with a BTreeMap model. Non-trivial = at least one write was committed; distinct = distinct (case, final-state digest).",
     );
-    p.budget_s = if thorough { 1500 } else { 45 };
+    p.budget_s = if thorough { 1500 } else { 55 };
     p.assumptions = vec![
         "values are compared through Nomt::read and Session::read only (C01 says nothing about roots)".into(),
         "commit_concurrency 1 and 3; other options at small fixed values (see C13 for the option space)".into(),
@@ -224,7 +224,7 @@ fn plan_c02(thorough: bool) -> Plan {
         cases,
         "histx: every history of D commits with at most B key actions {insert, delete, overwrite} over (i) a 14-key family diverging at bits {0,1,5,6,7,11,12,13,17,18,127,254,255} and (ii) clusters of 18..22 keys below one depth-2 and one depth-3 merkle page (page-elision threshold from both sides), for 1..64 commit workers, and (iii) the tombstone family (16/32-bucket tables × 16 bitbox seeds, 10 pages, every page / adjacent pair of pages removed, cold reopen, re-insert, reopen), (iiib) roots of sessions on overlay chains in which an ancestor inserts 'round' keys (prefix·1·0…0) and a descendant writes into the sub-trie on their left whose only leaf is on disk, (iiic) 'quiet' copies (no reads between the operations) of every second history that starts from a seed state, and (iv) every schedule with ≤2 (thorough: all) preemptions of the three merkle update workers of one commit (worker start, publishing of child-page roots, hand-back of the write pass, root-page phase) under the controlled scheduler; FinishedSession::root, Nomt::root after each commit and after a final reopen are compared with an independent from-scratch recursive trie over the model's key-value set. Non-trivial = at least one write committed. Also ALL schedules (a few hundred per batch) of the three beatree leaf-stage workers of one commit whose ranges are three consecutive leaves that all fall below the merge threshold (three batches: two of three values deleted / values shrunk and last leaf deleted / middle leaf deleted), i.e. of the extend-range protocol between neighbouring workers (poll left neighbour, send request, wait for response, wait for left neighbour to conclude, join in completion order): after every schedule the values, root and proofs equal the model and the directory decodes (independent decoder) to exactly the model with every page accounted for. And the branch stage: seed with two bottom branch nodes, one commit deleting 420–440 consecutive keys (≈ 140 leaves) so that the first node falls below the merge threshold and its worker requests nodes from its right neighbour, with three leaf-stage workers running under the scheduler as well (2 batches; every schedule with 0 preemptions quick, ≤1 and a capped ≤2 thorough).",
     );
-    p.budget_s = if thorough { 1500 } else { 45 };
+    p.budget_s = if thorough { 1500 } else { 55 };
     p.assumptions = vec!["collision resistance of the hasher (equal roots ⇔ equal tries)".into()];
     p
 }
@@ -301,7 +301,7 @@ fn plan_c16(thorough: bool) -> Plan {
         cases,
         "histx + imgdec: every history of ≤D commits with ≤B key actions over structural seed states (empty, leaf, branch, bulk, ovf, clusters of 19..21 keys below a depth-2 and a depth-3 merkle page) with hash tables of 64/256/4096 buckets; the page-creating / page-clearing part of the family (clusters around the elision threshold, pairs of keys that each need a depth-1 page) also with every commit made through an overlay — one by one, and as a chain of overlays committed in order; 'quiet' copies without reads between the operations; at every quiescent point (after open and after every commit) the directory is decoded by an independent decoder written from the documented formats: every key in exactly one leaf, strict order within/across leaves, keys bounded by separators, bbn labels, overflow chains complete with matching value hash and disjoint pages, used ∩ free = ∅, no page used twice, decoded key-value map = model; every full bucket found exactly once through its own probe sequence, every node reachable in every stored page = the reference trie's node at that position, needed pages either stored or marked elided (and then absent with all descendants), no unreachable stored page. Plus every process-crash cut (see C03) of the explicit crash histories (rollback, pruning, overlay commits, page promotion from elided to stored, pages cleared by delete-only commits): the image recovered by Nomt::open is decoded the same way.",
     );
-    p.budget_s = if thorough { 1500 } else { 45 };
+    p.budget_s = if thorough { 1500 } else { 55 };
     p.assumptions = vec!["the decoder implements the documented layouts (trusted, ~600 lines, shares no code with nomt)".into(), "crash-recovered images are covered by the C03 check, which applies the same decoder".into()];
     p
 }
@@ -321,7 +321,7 @@ fn plan_c19(thorough: bool) -> Plan {
         cases,
         "histx + imgdec: the structural history family of C16 (including the histories committed through overlays and overlay chains); at every quiescent point the decoder's page accounting must give [1, bump) = in-use ⊎ free-list-tracked in both value files (no leak, no double use), and hash_table_utilization().occupied = number of full buckets in the decoded meta map = number of stored pages reachable from the root (0 for an empty store). Plus every process-crash cut of the explicit crash histories: the same accounting of occupancy on the handle that recovered the image.",
     );
-    p.budget_s = if thorough { 1500 } else { 45 };
+    p.budget_s = if thorough { 1500 } else { 55 };
     p
 }
 
@@ -488,7 +488,7 @@ pub fn crash_plan(prop: &str, tier: &str) -> Plan {
     };
     let mut p = Plan::new(cases, rule);
     p.level = if prop == "C17" { "model_checking" } else { "fault_enumeration" };
-    p.budget_s = if thorough { 1700 } else { 45 };
+    p.budget_s = if thorough { 1700 } else { 55 };
     p.assumptions = vec![
         "two task schedules per traced operation (eager, and every sync-pipeline task as late as possible); a page write counts as complete only once its completion was received by the submitter, so 'write still in flight at the fsync / at the meta swap' does not depend on how fast the I/O pool happened to be; other pool-thread interleavings are not enumerated here".into(),
         "file-system model: process crash = completed syscalls persist, in-flight ones are atomic per call; power loss = as stated in the rule; the seam self-check (pre-image + recorded events = real directory) runs on every traced operation".into(),
@@ -540,7 +540,7 @@ fn fault_plan(thorough: bool) -> Plan {
         "crashx fault enumeration: for every traced operation of the history set H3 (commits, overlay commits, rollbacks, reopens; see C03) and EVERY mutating or syncing file operation it performs — identified by (file, kind, ordinal) from a fault-free reference run — the history is re-executed and that operation is made to fail with EIO, (a) once and (b) persistently from then on; page writes through the I/O pool fail both at submission (not performed) and at completion (performed, reported failed). Oracle per injected run: the call returns an error (success with the failure inside the call = swallowed failure; panic; hang detected by a per-case watchdog with resume), the handle is poisoned and refuses a further commit, and after drop a fault-free reopen shows exactly the pre-state (or the post-state, only if the meta fsync had completed). Bucket exhaustion: tables of 4/5/7/8 buckets with cluster batches needing more pages than fit: the commit must return an error (not hang), poison, and leave the pre-state. transitions = injected executions.",
     );
     p.level = "fault_enumeration";
-    p.budget_s = if thorough { 1700 } else { 50 };
+    p.budget_s = if thorough { 1700 } else { 55 };
     p.isolate = true;
     p.case_timeout_s = 20;
     p.timeout_is_violation = true;
